@@ -59,6 +59,7 @@ class Ctx:
         self.notes = []
         self.truncated_by_time = False
         self._case_no = 0
+        self.shard_env = ""  # "python-O" | "debug-logging" | "" : the process environment this shard runs in
         self.replay_info = None  # {"shard":..,"nshards":..,"seed":..,"i":..} set by workloads that are replayed by index
 
     # -- randomness -------------------------------------------------------
@@ -117,6 +118,8 @@ class Ctx:
             c = witness.setdefault("case", {})
             if isinstance(c, dict):
                 c.setdefault("replay", dict(self.replay_info))
+        if self.shard_env and isinstance(witness, dict):
+            witness.setdefault("process_environment", self.shard_env)
         v = self.violations.setdefault(key, {"count": 0, "witnesses": []})
         v["count"] += 1
         if len(v["witnesses"]) < self.MAX_WITNESSES_PER_KEY:
